@@ -49,6 +49,9 @@ type Task struct {
 	Read   ReadPlan   `json:"read"`
 	// WriteFail: the n-th Write call of the sink fails (Encode only; 0 = never)
 	WriteFail int `json:"write_fail,omitempty"`
+	// Seq: the call is made this many times in a row on the same reader
+	// (Decode / CheckIntegrity over a concatenation of files, one file per call)
+	Seq int `json:"seq,omitempty"`
 	// Sink "buffer": Encode writes into a *bytes.Buffer instead of the simulated
 	// writer; "buffer+": the buffer already holds bytes, and repeated calls
 	// append to the same buffer (a caller building a chained stream)
